@@ -452,9 +452,9 @@ pub fn worker_handle(req: &Value) -> Value {
                         nulls.retain(|p| !p.ends_with("n_50_test_ach"));
                         let roundtrips = serde_json::from_str::<EnergyIndicators>(&js).is_ok();
                         // a building without any habitable space inside the envelope has a reference area of 0 by definition: its
-                        // figures are judged too (decided from the model, not from the reported area), unless a building-wide
-                        // ventilation flow is given (flow per habitable volume: not examined, see DESIGN 12.6 round 10)
-                        let no_habitable = !m.spaces.is_empty() && m.meta.global_ventilation_l_s.is_none()
+                        // figures are judged too (decided from the model, not from the reported area), with or without a
+                        // building-wide ventilation flow
+                        let no_habitable = !m.spaces.is_empty()
                             && !m.spaces.iter().any(|s| s.inside_tenv && s.kind != bemodel::SpaceType::UNINHABITED);
                         let sane_sizes = sane_inputs(&m) && (ind.area_ref > 0.0 || no_habitable) && ind.vol_env_net > 0.0;
                         e["outcome"] = json!("ok");
